@@ -87,7 +87,8 @@ type harness struct {
 
 func (h *harness) boot(from map[string]*crew.Machine) {
 	h.ctx, h.cancel = context.WithCancel(context.Background())
-	h.cp = &coup{make(chan interface{}, 1024), make(chan *sio.Result, 1024)}
+	// (the crew's input has no buffer and its reader takes its time: a timer that fires while the reader is busy waits for it)
+	h.cp = &coup{make(chan interface{}), make(chan *sio.Result, 1024)}
 	c, err := sio.NewCrew(h.ctx, &sio.CrewConf{Id: "verif", Ctl: &core.Control{Limit: 100}}, h.cp)
 	check(err)
 	h.c = c
@@ -110,6 +111,7 @@ func (h *harness) boot(from map[string]*crew.Machine) {
 					tok = int(f)
 				}
 				h.rec.add(O{"ev": "fire", "token": tok, "id": mm["id"]})
+				time.Sleep(time.Millisecond)
 			case <-ctx.Done():
 				return
 			}
